@@ -42,10 +42,15 @@ import random
 
 PID = "C13"
 LEVEL = "proof"
-LEAN_MODULES = ["AsynqModel.Theorems.C13", "AsynqModel.Theorems.C13b", "AsynqModel.Theorems.C13c"]
+LEAN_MODULES = ["AsynqModel.Theorems.C13", "AsynqModel.Theorems.C13b", "AsynqModel.Theorems.C13c", "AsynqModel.Theorems.C13d"]
 # the claimed theorems (audited with #print axioms by the proof gate); one line each in MANIFEST.json / DESIGN.md 5.
 # HEADLINE: statements about alru_cache / acached_per_instance / alazy_constant with content of their own.
 HEADLINE = [
+    # Theorems/C13d.lean: each of the three observers accepted an accepted history (any length, any origin) at EVERY
+    # position, by watchStep from the reference cache built by the records before it
+    "AsynqModel.Cache.Alru.C13_alru_spec_every_step",
+    "AsynqModel.Cache.PerInst.C13_perinst_spec_every_step",
+    "AsynqModel.Cache.Lazy.C13_lazy_spec_every_step",
     "AsynqModel.Cache.C13_key_normal",
     "AsynqModel.Cache.C13_key_injective",
     "AsynqModel.Cache.C13_alru_key_normal",
